@@ -15,7 +15,7 @@ RULE = ("proof (partial): Props/C07.lean — regenerated lock discipline of memo
         "NewGraph/Graph/DeleteGraph/GraphNames on a second graph) recorded on the real driver with call/return stamps and "
         "searched for a linearization by the Lean driver (a batch of adds is one step, removes one step per triple); (L) every "
         "look-up method x eight option values (three of them error paths) must close its channel exactly once and leave the "
-        "options as they were; (R) randomized stress of 12 goroutines over three graphs, sharing LookupOptions values, run on "
+        "options as they were; (N) the consumer of a look-up of n results does b reads of the same graph per result, with and without a writer arriving — the implementation may come to a halt only where Model/Chan.lean's search says a halt is reachable (those are known finding D37); (S) a caller half way through reading a look-up's results uses the store (Graph, GraphNames, NewGraph, DeleteGraph) while another goroutine runs a store operation, 16 combinations: nobody waits for ever; (R) randomized stress of 12 goroutines over three graphs, sharing LookupOptions values, run on "
         "the -race build: no race report, panic or deadlock. non-trivial = recorded histories in which operations of "
         "different goroutines overlap in time")
 
@@ -48,6 +48,8 @@ def run(r: core.Run):
 
     tie = None
     bad = []
+    d37 = next((f for f in r.findings.get("findings", []) if f.get("property") == "C07" and f.get("id", "").startswith("D37")), None)
+    d37_seen = False
     try:
         stats = core.run_bwh(["conc", "-n", str(n), "-stress", "0.2", "-ops", base + ".ops", "-impl", base + ".impl"],
                              extra_env={"VERIF_SEED": str(r.seed)}, timeout=3000)
@@ -72,6 +74,21 @@ def run(r: core.Run):
                 if not impl[i].startswith("closed"):
                     bad.append((i, "lookup", {"hang": "the look-up never closed its channel", "panic": "the look-up panicked (closed its channel twice?)",
                                               "options-modified": "the look-up modified the LookupOptions value it was handed"}.get(impl[i], impl[i])))
+            elif o.startswith("N "):
+                # the consumer of a look-up reads the same graph between results: Model/Chan.lean says when the three
+                # goroutines can come to a halt (D37: known finding, identified by that class)
+                r.cov["evaluations"] += 1
+                if model[i] not in ("can-halt", "progress"):
+                    tie = tie or core.TieBroken("the Lean driver cannot read a consumer scenario", o + " -> " + model[i])
+                elif impl[i] != "ok":
+                    if model[i] == "can-halt" and d37 is not None:
+                        d37_seen = d37_seen or o == d37.get("witness")
+                    else:
+                        bad.append((i, "lookup", "the consumer of a look-up and the look-up came to a halt where the model of the lock says they cannot: " + impl[i]))
+            elif o.startswith("S "):
+                r.cov["evaluations"] += 1
+                if impl[i] != "ok":
+                    bad.append((i, "lookup", "a caller half way through a look-up's results could not use the store while another goroutine ran a store operation: " + impl[i]))
             elif o.startswith("R "):
                 if impl[i] != "ok":
                     bad.append((i, "stress", "randomized concurrent use ended with " + impl[i]))
@@ -87,7 +104,7 @@ def run(r: core.Run):
         race_bin = core.build_harness(race=True)
         env = core.go_env()
         env.update({"VERIF_SEED": str(r.seed), "GORACE": "halt_on_error=1 exitcode=66"})
-        p = subprocess.run([race_bin, "conc", "-n", "300", "-stress", str(secs), "-ops", base + ".race.ops", "-impl", base + ".race.impl"],
+        p = subprocess.run([race_bin, "conc", "-n", "300", "-scen=false", "-stress", str(secs), "-ops", base + ".race.ops", "-impl", base + ".race.impl"],
                            stdout=subprocess.PIPE, stderr=subprocess.PIPE, env=env, timeout=3000)
         err = p.stderr.decode("utf-8", "replace")
         r.notes["race_run"] = {"exit": p.returncode, "seconds": secs}
@@ -110,6 +127,8 @@ def run(r: core.Run):
     except subprocess.TimeoutExpired:
         tie = core.TieBroken("the concurrent runs did not finish in time (deadlock?)")
 
+    if d37_seen:
+        r.known(d37["id"], d37["what"])
     done = 0
     for i, kind, why in bad:
         payload = {"protocol": "conc", "what": why}
